@@ -26,6 +26,7 @@ import (
 
 	"github.com/megaease/easegress/pkg/context"
 	"github.com/megaease/easegress/pkg/filters"
+	"github.com/megaease/easegress/pkg/filters/builder"
 	"github.com/megaease/easegress/pkg/filters/proxy"
 	"github.com/megaease/easegress/pkg/filters/ratelimiter"
 	"github.com/megaease/easegress/pkg/logger"
@@ -91,10 +92,38 @@ func formatOK(format, s string) bool {
 // raw document or in the normalized document, against every format checker
 // and every schema pattern of the kind's spec type.
 func ComputeOrc(specT reflect.Type, trees ...interface{}) *Orc {
-	o := &Orc{}
+	var pats []string
 	if specT != nil {
-		o.Pats = Patterns(specT)
+		pats = Patterns(specT)
 	}
+	return ComputeOrcP(pats, trees...)
+}
+
+// AllPatterns is the union of the schema patterns of every registered filter
+// and resilience kind (for documents that nest specs of arbitrary kinds).
+func AllPatterns() []string {
+	seen := map[string]bool{}
+	for _, k := range FilterKinds() {
+		for _, p := range Patterns(SpecType("filter", k)) {
+			seen[p] = true
+		}
+	}
+	for _, k := range ResilKinds() {
+		for _, p := range Patterns(SpecType("resilience", k)) {
+			seen[p] = true
+		}
+	}
+	var out []string
+	for p := range seen {
+		out = append(out, p)
+	}
+	sort.Strings(out)
+	return out
+}
+
+// ComputeOrcP is ComputeOrc for an explicit pattern list.
+func ComputeOrcP(pats []string, trees ...interface{}) *Orc {
+	o := &Orc{Pats: pats}
 	res := make([]*regexp.Regexp, len(o.Pats))
 	for i, p := range o.Pats {
 		res[i], _ = regexp.Compile(p)
@@ -126,7 +155,50 @@ func ComputeOrc(specT reflect.Type, trees ...interface{}) *Orc {
 		walkStrings(t, add)
 	}
 	sort.Slice(o.Strs, func(i, j int) bool { return o.Strs[i].S < o.Strs[j].S })
+	TplOracle(o, trees...)
 	return o
+}
+
+// TplOracle adds the template-parsing verdict for every builder-like document
+// found in the (normalized) trees: any object with a string field "template".
+func TplOracle(o *Orc, trees ...interface{}) {
+	seen := map[string]bool{}
+	var walk func(x interface{})
+	walk = func(x interface{}) {
+		switch v := x.(type) {
+		case []interface{}:
+			for _, e := range v {
+				walk(e)
+			}
+		case map[string]interface{}:
+			if t, ok := v["template"]; ok {
+				str := func(k string) string {
+					switch s := v[k].(type) {
+					case string:
+						return s
+					case nil:
+						return ""
+					default:
+						return fmt.Sprint(s)
+					}
+				}
+				_ = t
+				l, r, tpl := str("leftDelim"), str("rightDelim"), str("template")
+				key := l + "|" + r + "|" + tpl
+				if !seen[key] {
+					seen[key] = true
+					o.Tpl = append(o.Tpl, TplOrc{Key: key, OK: builder.VerifC13TemplateOK(l, r, tpl)})
+				}
+			}
+			for _, e := range v {
+				walk(e)
+			}
+		}
+	}
+	for _, t := range trees {
+		walk(t)
+	}
+	sort.Slice(o.Tpl, func(i, j int) bool { return o.Tpl[i].Key < o.Tpl[j].Key })
 }
 
 // NormDoc reproduces the document v.Validate hands to the schema validator:
@@ -150,6 +222,42 @@ func NormDoc(spec interface{}) (tree interface{}, err error) {
 		return nil, err
 	}
 	return ParseJSONTree(tb)
+}
+
+// NestedNorm decodes a nested raw spec (Pipeline filters[i] / resilience[i]) onto
+// the defaults of its kind and returns its normalized document (nil when the
+// kind is unknown or the document does not decode); only used to complete the
+// string oracle with the default values of nested kinds.
+func NestedNorm(cat string, raw interface{}) (tree interface{}) {
+	defer func() {
+		if r := recover(); r != nil {
+			tree = nil
+		}
+	}()
+	yb, err := yaml2.Marshal(raw)
+	if err != nil {
+		return nil
+	}
+	meta := supervisor.MetaSpec{}
+	if yaml2.Unmarshal(yb, &meta) != nil {
+		return nil
+	}
+	var spec interface{}
+	switch cat {
+	case "filter":
+		if k := filters.GetKind(meta.Kind); k != nil {
+			spec = k.DefaultSpec()
+		}
+	case "resilience":
+		if k := resilience.GetKind(meta.Kind); k != nil {
+			spec = k.DefaultPolicy()
+		}
+	}
+	if spec == nil || yaml2.Unmarshal(yb, spec) != nil {
+		return nil
+	}
+	tree, _ = NormDoc(spec)
+	return tree
 }
 
 // RecordValidate runs the real validation on a decoded spec.
@@ -285,7 +393,10 @@ func NewHTTPContext(rq Req) *context.Context {
 	if rq.Body != "" {
 		body = strings.NewReader(rq.Body)
 	}
-	stdr, err := http.NewRequest(rq.Method, "http://example.com"+rq.Path, body)
+	// a deadline bounds configured waits (Mock delay, RateLimiter timeout): waiting is not part of the property
+	dctx, cancel := stdcontext.WithTimeout(stdcontext.Background(), 150*time.Millisecond)
+	_ = cancel
+	stdr, err := http.NewRequestWithContext(dctx, rq.Method, "http://example.com"+rq.Path, body)
 	if err != nil {
 		return nil
 	}
